@@ -48,11 +48,85 @@ class Mutant:
     return out
 
 
+class RenameLocal:
+  """Equivalent variant: one local variable of one function renamed (AST-based,
+  so attributes and keywords of the same spelling are untouched)."""
+  expect = 'silent'
+  rule = None
+
+  def __init__(self, file, qualname, old, new=None):
+    self.file = file
+    self.qualname = qualname
+    self.old = old
+    self.new = new or (old + '_rn')
+    self.name = 'rename local %s -> %s in %s' % (old, self.new, qualname)
+
+  def overlay(self, repo=None):
+    repo = repo or REPO
+    with open(os.path.join(repo, self.file), encoding='utf-8') as f:
+      src = f.read()
+    tree = ast.parse(src)
+    fn = _find_func(tree, self.qualname)
+    if fn is None:
+      return None
+    names = set(n.id for n in ast.walk(fn) if isinstance(n, ast.Name))
+    args = set(a.arg for n in ast.walk(fn) if isinstance(n, ast.arguments) for a in n.posonlyargs + n.args + n.kwonlyargs)
+    if self.old not in names or self.new in names or self.old in args:
+      return None
+    for n in ast.walk(fn):
+      if isinstance(n, ast.Name) and n.id == self.old:
+        n.id = self.new
+    return {self.file: ast.unparse(tree)}
+
+
+def _find_func(tree, qualname):
+  parts = qualname.split('.')
+  cur = tree
+  for p in parts:
+    nxt = None
+    for n in cur.body:
+      if isinstance(n, (ast.FunctionDef, ast.ClassDef, ast.AsyncFunctionDef)) and n.name == p:
+        nxt = n
+    if nxt is None:
+      return None
+    cur = nxt
+  return cur
+
+
+def local_renames(funcs, repo=None):
+  """One RenameLocal per assigned local of each (file, qualname)."""
+  repo = repo or REPO
+  out = []
+  for file, qualname in funcs:
+    try:
+      tree = ast.parse(open(os.path.join(repo, file), encoding='utf-8').read())
+    except (OSError, SyntaxError):
+      continue
+    fn = _find_func(tree, qualname)
+    if fn is None:
+      continue
+    args = set(a.arg for n in ast.walk(fn) if isinstance(n, ast.arguments) for a in n.posonlyargs + n.args + n.kwonlyargs)
+    glob = set(x for n in ast.walk(fn) if isinstance(n, (ast.Global, ast.Nonlocal)) for x in n.names)
+    stored = []
+    for n in ast.walk(fn):
+      if isinstance(n, ast.Name) and isinstance(n.ctx, ast.Store) and n.id not in args and n.id not in glob and n.id not in stored and n.id != '_':
+        stored.append(n.id)
+    for name in stored:
+      out.append(RenameLocal(file, qualname, name))
+  return out
+
+
+def all_variants(mod):
+  muts = list(getattr(mod, 'MUTANTS', []))
+  muts.extend(local_renames(getattr(mod, 'RENAME_FUNCS', [])))
+  return muts
+
+
 def _run_one(args):
   prop, idx = args
   from . import framework
   mod = framework.load_rules(prop)
-  m = mod.MUTANTS[idx]
+  m = all_variants(mod)[idx]
   ov = m.overlay()
   if ov is None:
     return (idx, 'inapplicable', [], None)
@@ -67,7 +141,7 @@ def _run_one(args):
 
 
 def run_selftest(prop, mod, baseline_keys, seed=0, jobs=None):
-  muts = list(getattr(mod, 'MUTANTS', []))
+  muts = all_variants(mod)
   order = list(range(len(muts)))
   random.Random(seed).shuffle(order)
   results = {}
